@@ -150,12 +150,12 @@ def model(ctx):
     new, new2 = Obj("n", label="n"), Obj("m", label="m")
     twin = lambda elems: Obj("equal_twin_of_y", label="y", __eqclass__="value-of-y")
 
-    def check(desc, method, named, args, exp_view, exp_names, exp_ret="-", exp_raise=None, nn=3, kw=None, group=None):
+    def check(desc, method, named, args, exp_view, exp_names, exp_ret="-", exp_raise=None, nn=3, kw=None, group=None, prep=None, unnamed_extra=False):
         nonlocal n
         if group:
             desc = group + " :: " + desc
         try:
-            o, proxy, param, elems, before = _run(ctx, method, named, args, nn, kw)
+            o, proxy, param, elems, before = _run(ctx, method, named, args, nn, kw, prep)
         except Unsupported as e:
             raise AnalysisError("ListProxy model: absint cannot interpret ListProxy.%s: %s" % (method, e))
         n += 1
@@ -189,7 +189,7 @@ def model(ctx):
         elif not isinstance(names, dict) or list(names) != list(en) or any(names[k] is not en[k] for k in en):
             problems.append((desc, "names is %s, specification %s" % (
                 {k: getattr(v, "name", v) for k, v in names.items()} if isinstance(names, dict) else names, {k: v.name for k, v in en.items()})))
-        elif names and (len(names) != len(view) or any(a is not b for a, b in zip(names.values(), view))):
+        elif names and not unnamed_extra and (len(names) != len(view) or any(a is not b for a, b in zip(names.values(), view))):
             problems.append((desc, "names.values() %s is not the list view %s" % (_ids(names.values()), _ids(view))))
         if exp_ret != "-":
             want = exp_ret(elems)
@@ -240,6 +240,15 @@ def model(ctx):
     check("{a: x, b: y, c: z}.remove(n)", "remove", True, [new], None, None, exp_raise="ValueError")
     check("{a: x, b: y, c: z}.clear()", "clear", True, [], lambda e: [], NONE)
     check("{a: x}.pop('a')", "pop", True, ["a"], lambda e: [], NONE, lambda e: e[0], nn=1)
+    # ---- a label re-pointed when the list holds an object WITHOUT a label in front (the state list-style growth leaves behind):
+    # the slot replaced is the one that holds the label's current object, wherever it sits in the list
+    front = Obj("unnamed_object_in_front", label="u")
+
+    def with_unnamed_front(proxy, param, elems):
+        proxy.attrs["view"].insert(0, front)
+        param.attrs["_objects"].insert(0, front)
+    check("[u, x, y, z] labelled {a: x, b: y, c: z} ['b'] = n", "__setitem__", True, ["b", new], lambda e: [front, e[0], new, e[2]], lambda e: {"a": e[0], "b": new, "c": e[2]},
+          prep=with_unnamed_front, unnamed_extra=True)
     # ---- list-style growth of a named selector (the library logs a deprecation warning and goes on)
     G = "list-style growth of a dict-declared selector"
     ANY = lambda e: None
@@ -250,7 +259,9 @@ def model(ctx):
     return n, problems
 
 
-def report(ctx, rule):
+def report(ctx, rule, objects_only=False):
+    """objects_only: only what concerns the LIST of objects a Selector validates against (for properties that are not about
+    the labels)."""
     # one model run per check run (never keyed by id(): ids are reused after garbage collection)
     memo = ctx.__dict__.setdefault('_model_memo', {})
     if 'listproxy_model' not in memo:
@@ -258,6 +269,8 @@ def report(ctx, rule):
     n, problems = memo['listproxy_model']
     ctx.abstract_cases += n
     cls = ctx.repo.cls(LP)
+    if objects_only:
+        problems = [(d, w) for d, w in problems if w.startswith("the list view is") or w.startswith("_objects is") or w.startswith("raises") or w.startswith("does not raise")]
     if not problems:
         ctx.ok(rule, LP, None, "ListProxy model: %d operations from unnamed and named states agree with list/dict semantics (view = _objects = names.values(), keys, return values, failed operations leave no trace)" % n)
         return
